@@ -204,6 +204,7 @@ class Spec:
     cuts: Sequence[str] = ()   # names of outputs that are cut points for the other outputs ("peeling")
     only: Sequence[str] = ()   # when non-empty: scalar defs only for these outputs (the runner then uses `all`)
     selects: bool = False      # emit the if_else decomposition (cond / then / else defs) of outputs that are selections
+    nested: bool = False       # cut outputs get `_cut` versions too (in terms of the OTHER cut outputs)
 
 
 def dyadic(x: float) -> Tuple[int, int]:
@@ -310,6 +311,8 @@ def extract(spec: Spec) -> dict:
         ir["only"] = list(spec.only)
     if spec.selects:
         ir["selects"] = True
+    if spec.nested:
+        ir["nested"] = True
     # input nz -> (row, col): inputs are dense symbols, column-major
     return ir
 
@@ -440,6 +443,17 @@ def cut_binders(ir):
     return cutmap, "(%s : α)" % " ".join(names)
 
 
+def cutmap_for(ir, out, cutmap):
+    """the cut map seen from output `out`: for a cut output (nested mode) its own elements are not cut"""
+    if out["name"] not in ir.get("cuts", []):
+        return cutmap
+    r, c = out["shape"]
+    own = set("c_" + elem_name(out, i, j) for j in range(c) for i in range(r))
+    def mine(v):
+        return v in own or (v.startswith("(CasNum.neg ") and v[len("(CasNum.neg "):-1] in own)
+    return {n: v for n, v in cutmap.items() if not mine(v)}
+
+
 def cut_args(ir) -> str:
     """the cut outputs applied to the function's own arguments, in binder order"""
     a = argnames(ir)
@@ -512,18 +526,19 @@ def emit_function(ir) -> str:
     if ir["scalar"] and ir.get("cuts"):
         cutmap, cb = cut_binders(ir)
         for out in scalar_outputs(ir):
-            if out["name"] in ir["cuts"]:
+            if out["name"] in ir["cuts"] and not ir.get("nested"):
                 continue
+            cm = cutmap_for(ir, out, cutmap)
             r, c = out["shape"]
             for j in range(c):
                 for i in range(r):
                     root = out["elems"][i][j]
-                    _emit_chain(L, ir, elem_name(out, i, j) + "_cut", b + " " + cb, root, cutmap)
-                    sp = select_parts(ir, root, cutmap) if ir.get("selects") else None
+                    _emit_chain(L, ir, elem_name(out, i, j) + "_cut", b + " " + cb, root, cm)
+                    sp = select_parts(ir, root, cm) if ir.get("selects") else None
                     if sp:
                         for suffix, nd in zip(("_cut__c", "_cut__a", "_cut__b"), sp):
                             if nd is not None:
-                                _emit_chain(L, ir, elem_name(out, i, j) + suffix, b + " " + cb, nd, cutmap)
+                                _emit_chain(L, ir, elem_name(out, i, j) + suffix, b + " " + cb, nd, cm)
     # `all`: every output element (column-major per output), one shared let-chain
     roots = []
     for out in ir["outputs"]:
@@ -625,13 +640,14 @@ def emit_wrappers(ir) -> str:
         negs = any(v.startswith("(CasNum.neg") for v in cutmap.values())
         breal = " ".join("(%s : %s)" % (i["name"], arg_type(i["shape"]).replace("α", "ℝ")) for i in ir["inputs"])
         for out in scalar_outputs(ir):
-            if out["name"] in ir["cuts"]:
+            if out["name"] in ir["cuts"] and not ir.get("nested"):
                 continue
+            cm = cutmap_for(ir, out, cutmap)
             r, c = out["shape"]
             for j in range(c):
                 for i in range(r):
                     en = elem_name(out, i, j)
-                    sp = select_parts(ir, out["elems"][i][j], cutmap) if ir.get("selects") else None
+                    sp = select_parts(ir, out["elems"][i][j], cm) if ir.get("selects") else None
                     if sp and sp[2] is None:
                         _, cb = cut_binders(ir)
                         ca_ = " ".join(cb.strip("()").split(":")[0].split())
